@@ -33,6 +33,57 @@ def run(ctx, rep):
     rep.floor("window dereference sites in primitive readers", n, prim["floor_all"])
     from .C01 import wiresig
     wiresig(ctx, rep, ids=("rabs", "direct", "bit_region", "rans_end", "kd_points"))
+    widenshift(ctx, rep)
     for note in (prim.get("_note_dead_readers"),):
         if note:
             rep.note(note)
+
+
+def widenshift(ctx, rep):
+    """WIDENSHIFT: in the bitstream primitives no left shift by a run-time amount is carried out in 32 bits
+    and only then widened to 64 bits (`value64 |= (byte & 0x7f) << shift`): the bits above 31 are lost for
+    exactly the wide values the 64-bit variant exists for, so the writer/reader pair stops being an inverse."""
+    from ..core import Obligation, DISCHARGED, VIOLATION
+    from ..facts import walk
+    F = ctx.F
+    rep.rules_text.append(
+        "WIDENSHIFT: in draco/core and the bit / entropy coders, every `a << n` with a run-time n whose result is "
+        "converted to a 64-bit type is itself computed in 64 bits (a 32-bit shift that is widened afterwards drops "
+        "the high bits of 64-bit varints, sizes and bit fields)")
+    dirs = ("/draco/core/", "/compression/bit_coders/", "/compression/entropy/")
+    n_sh, seen = 0, set()
+    fired = False
+    for fn in F.fns.values():
+        is_ctl = fn.name.startswith("verif_control::") and "widenshift" in fn.name
+        if not is_ctl and not any(d in fn.file for d in dirs):
+            continue
+        for blk, rk, tree, ev in fn.roots():
+            if tree is None:
+                continue
+            for n in walk(tree):
+                if n.get("k") != "bin" or n.get("op") not in ("<<", "<<=") or "v" in n:
+                    continue
+                r = n.get("r")
+                if isinstance(r, dict) and "v" in r:
+                    continue
+                n_sh += 0 if is_ctl else 1
+            for n in walk(tree):
+                if n.get("k") in ("icast", "cast") and (n.get("iw") or 0) >= 64 and "v" not in n:
+                    e = n.get("e")
+                    while isinstance(e, dict) and e.get("k") in ("copy", "paren"):
+                        e = e.get("e")
+                    if isinstance(e, dict) and e.get("k") == "bin" and e.get("op") == "<<" and "v" not in e and \
+                            not (isinstance(e.get("r"), dict) and "v" in e["r"]) and (e.get("iw") or 32) <= 32:
+                        site = fn.site(ev.get("loc", ""))
+                        if (fn.base, site) in seen:
+                            continue
+                        seen.add((fn.base, site))
+                        fired |= is_ctl
+                        rep.add(Obligation("WIDENSHIFT", fn.base, "32-bit shift widened to 64 bits", site, VIOLATION,
+                                           detail="`%s`: the shift is evaluated in 32 bits and widened afterwards; bits "
+                                                  "above 31 are lost" % (ev.get("src") or "")[:100], control=is_ctl))
+    rep.add(Obligation("WIDENSHIFT", "bitstream primitives", "run-time shifts inspected", "-", DISCHARGED,
+                       detail="%d left shifts by a run-time amount inspected; none is a 32-bit shift widened to 64 bits"
+                              % n_sh, trivial=True))
+    rep.floor("run-time left shifts in the bitstream primitives", n_sh, 5)
+    rep.control("WIDENSHIFT", "c17_widenshift_bad", fired, "a widened 32-bit shift must be reported")
